@@ -115,10 +115,12 @@ def random_match_case(rng, exact=True, scope="in"):
             c["mode"], c["given"] = "indices", [0] * (n + 1)
         else:
             c[rng.choice(["trule", "rrule"])] = "simpson"
+    if scope == "in" and not big and rng.random() < 0.12:
+        c["xoff"] = [rng.choice([-1, 1]), rng.choice([31, 40])]     # the same problem far from the origin (exact translation)
     return c
 
 
-CASE_KEYS = ("fn", "x", "y", "xref", "yref", "mode", "strategy", "given", "trule", "rrule", "alpha", "alpha_f", "exact", "bounded", "container", "ycontainer", "mc")
+CASE_KEYS = ("fn", "x", "y", "xref", "yref", "mode", "strategy", "given", "trule", "rrule", "alpha", "alpha_f", "exact", "bounded", "container", "ycontainer", "mc", "xoff")
 
 
 def random_private_case(rng):
